@@ -22,7 +22,26 @@ theorem keeps_commit (w : World) (s : BState) (n : Name) : Keeps w s (commit s n
 theorem keeps_resetCp (w : World) (s : BState) : Keeps w s (resetCp s) := (Keeps.of_rfl w rfl)
 theorem keeps_clearCp (w : World) (s : BState) : Keeps w s (clearCp s) := (Keeps.of_rfl w rfl)
 
-theorem keeps_resetR (w : World) (s : BState) : Keeps w s (resetR s).st := keeps_resetCp w s
+theorem keeps_rewindReadd (w : World) (s : BState) (n : Name) : Keeps w s (rewindReadd s n) := by
+  unfold rewindReadd; split
+  · exact Keeps.refl w s
+  · exact (Keeps.of_rfl w rfl)
+
+theorem keeps_rewindOp (w : World) (s : BState) : Keeps w s (rewindOp s) := by
+  unfold rewindOp
+  have h1 : Keeps w s { s with seq := s.seqCopy, log := s.log ++ [.rewind (akeys s.descriptors)] } :=
+    (Keeps.of_rfl w rfl)
+  have h2 : Keeps w s (if rewindReaddsDescriptorStreams then
+      (akeys ({ s with seq := s.seqCopy, log := s.log ++ [.rewind (akeys s.descriptors)] } : BState).descriptors).foldl
+        rewindReadd { s with seq := s.seqCopy, log := s.log ++ [.rewind (akeys s.descriptors)] }
+      else { s with seq := s.seqCopy, log := s.log ++ [.rewind (akeys s.descriptors)] }) := by
+    split
+    · exact keeps_foldl_state w _ _ _ _ h1 (fun a x => keeps_rewindReadd w a x)
+    · exact h1
+  simp only
+  split
+  · exact Keeps.trans w _ _ _ h2 (Keeps.of_rfl w rfl)
+  · exact h2
 
 theorem keeps_composeEvent (w : World) (s : BState) (n : Name) (u : Nat) (dk ext : List Key) (data : List (Key × Val))
     (src : Src) (note : Option String) : Keeps w s (composeEvent s n u dk ext data src note).st := by
@@ -71,66 +90,127 @@ theorem keeps_ensureCached (w : World) (s : BState) (o : Obj) (c : Bool) :
 theorem keeps_ensureAll (w : World) (s : BState) (objs : List Obj) (c : Bool) :
     Keeps w s (ensureAll w s objs c).st := by
   unfold ensureAll
-  apply keeps_foldl w
+  apply keeps_foldl
   · exact Keeps.refl w s
   · intro r a h
     exact keeps_andThen w s r _ h (fun s' => keeps_ensureCached w s' a c)
 
-theorem keeps_prepareStream_finish (w : World) (n : Name) (objsDks : List (Obj × List Key)) (s : BState)
-    (uid : Nat) (dk : List Key) (cfg : List (Obj × CfgBlock)) (pre : List CEv) :
-    Keeps w s (prepareStream.finish w n objsDks s uid dk cfg pre).st := by
-  unfold prepareStream.finish
-  simp only
-  split <;> exact (Keeps.of_rfl w rfl)
+theorem keeps_prepareStore (w : World) (s : BState) (n : Name) (objsDks : List (Obj × List Key)) (uid : Nat) :
+    Keeps w s (prepareStore w s n objsDks uid) := (Keeps.of_rfl w rfl)
+
+theorem keeps_prepareFinish (w : World) (s : BState) (n : Name) (objsDks : List (Obj × List Key)) (uid : Nat) :
+    Keeps w s (prepareFinish w s n objsDks uid) := by
+  unfold prepareFinish
+  split
+  · exact keeps_prepareStore w s n objsDks uid
+  · exact Keeps.trans w _ _ _ (keeps_prepareStore w s n objsDks uid) (Keeps.of_rfl w rfl)
 
 theorem keeps_prepareStream (w : World) (s : BState) (n : Name) (objsDks : List (Obj × List Key)) :
     Keeps w s (prepareStream w s n objsDks).st := by
   unfold prepareStream
-  simp only
   split
   · exact Keeps.refl w s
   · split
     · split
       · exact (Keeps.of_rfl w rfl)
-      · refine Keeps.trans w _ _ _ ?_ (keeps_prepareStream_finish w n objsDks _ _ _ _ _)
+      · refine Keeps.trans w _ _ _ ?_ (keeps_prepareFinish w _ n objsDks _)
         exact (Keeps.of_rfl w rfl)
-    · refine Keeps.trans w _ _ _ ?_ (keeps_prepareStream_finish w n objsDks _ _ _ _ _)
+    · refine Keeps.trans w _ _ _ ?_ (keeps_prepareFinish w _ n objsDks _)
       exact (Keeps.of_rfl w rfl)
 
 theorem keeps_dropMonitors (w : World) (s : BState) : Keeps w s (dropMonitors s).st := (Keeps.of_rfl w rfl)
+
+theorem keeps_closeRunTail (w : World) (s : BState) (e r : String) : Keeps w s (closeRunTail s e r).st := by
+  unfold closeRunTail
+  split
+  · exact Keeps.refl w s
+  · simp only [Res.ok_st]
+    split
+    · refine Keeps.trans w _ _ _ ?_ (Keeps.of_rfl w rfl)
+      refine Keeps.trans w _ _ _ ?_ (keeps_resetCp w _)
+      exact (Keeps.of_rfl w rfl)
+    · exact (Keeps.of_rfl w rfl)
 
 theorem keeps_closeRun (w : World) (s : BState) (e r : Option String) : Keeps w s (closeRun s e r).st := by
   unfold closeRun
   split
   · exact Keeps.refl w s
-  · apply keeps_andThen w
+  · apply keeps_andThen
     · exact keeps_dropMonitors w s
+    · intro s'; exact keeps_closeRunTail w s' _ _
+
+theorem keeps_create (w : World) (s : BState) (n : Option Name) : Keeps w s (create s n).st := by
+  unfold create
+  split
+  · exact Keeps.refl w s
+  · cases n with
+    | none => exact (Keeps.of_rfl w rfl)
+    | some n => simp only; split <;> exact (Keeps.of_rfl w rfl)
+
+theorem keeps_read (w : World) (s : BState) (o : Obj) (rd : Reading) : Keeps w s (read w s o rd).st := by
+  unfold read
+  split
+  · exact Keeps.refl w s
+  · apply keeps_andThen
+    · exact keeps_ensureCached w s o false
     · intro s'
-      simp only
       split
       · exact Keeps.refl w s'
-      · apply keeps_andThen w
-        · exact (Keeps.of_rfl w rfl)
-        · intro s''
-          apply keeps_andThen w
-          · split
-            · exact keeps_resetR w s''
-            · exact Keeps.refl w s''
-          · intro s3; exact (Keeps.of_rfl w rfl)
+      · exact (Keeps.of_rfl w rfl)
+
+theorem keeps_saveDescriptor (w : World) (s : BState) (n : Name) (objs : List Obj) :
+    Keeps w s (saveDescriptor w s n objs).st := by
+  unfold saveDescriptor
+  split
+  · apply keeps_andThen
+    · exact keeps_ensureAll w _ _ false
+    · intro s'; exact keeps_prepareStream w s' n _
+  · split <;> exact Keeps.refl w s
+
+theorem keeps_saveEvent (w : World) (s : BState) (n : Name) (rd : List (Key × Val)) : Keeps w s (saveEvent s n rd).st := by
+  unfold saveEvent
+  split
+  · exact Keeps.refl w s
+  · exact keeps_composeEvent w s n _ _ _ _ _ _
+
+theorem keeps_save (w : World) (s : BState) : Keeps w s (save w s).st := by
+  unfold save
+  split
+  · exact Keeps.refl w s
+  · split
+    · simp only [Res.ok_st]; split
+      · exact (Keeps.of_rfl w rfl)
+      · exact Keeps.refl w s
+    · split
+      · exact (Keeps.of_rfl w rfl)
+      · rename_i n hn
+        refine Keeps.trans w _ { s with bundling := false, bundleName := none } _ (Keeps.of_rfl w rfl) ?_
+        apply keeps_andThen
+        · exact keeps_saveDescriptor w _ n _
+        · intro s'; exact keeps_saveEvent w s' n _
+
+theorem keeps_drop (w : World) (s : BState) : Keeps w s (drop s).st := by
+  unfold drop; split
+  · exact Keeps.refl w s
+  · exact (Keeps.of_rfl w rfl)
+
+theorem keeps_monitorSubscribe (w : World) (s : BState) (o : Obj) (n : Name) :
+    Keeps w s (monitorSubscribe s o n).st := by
+  unfold monitorSubscribe
+  split
+  · exact Keeps.refl w s
+  · exact (Keeps.of_rfl w rfl)
 
 theorem keeps_monitor (w : World) (s : BState) (o : Obj) (n : Name) : Keeps w s (monitor w s o n).st := by
   unfold monitor
   split
   · exact Keeps.refl w s
-  · apply keeps_andThen w
+  · apply keeps_andThen
     · exact keeps_ensureCached w s o false
     · intro s'
-      apply keeps_andThen w
+      apply keeps_andThen
       · exact keeps_prepareStream w s' n _
-      · intro s''
-        split
-        · exact Keeps.refl w s''
-        · exact (Keeps.of_rfl w rfl)
+      · intro s''; exact keeps_monitorSubscribe w s'' o n
 
 theorem keeps_monitorCompose (w : World) (s : BState) (m : MonRec) (rd : Reading) :
     Keeps w s (monitorCompose s m rd).st := by
@@ -138,54 +218,59 @@ theorem keeps_monitorCompose (w : World) (s : BState) (m : MonRec) (rd : Reading
   split
   · split
     · exact Keeps.refl w s
-    · exact keeps_composeEvent ..
-  · exact keeps_composeEvent ..
+    · exact keeps_composeEvent w s _ _ _ _ _ _ _
+  · exact keeps_composeEvent w s _ _ _ _ _ _ _
 
 theorem keeps_monitorUpdate (w : World) (s : BState) (o : Obj) (rd : Reading) : Keeps w s (monitorUpdate s o rd).st := by
   unfold monitorUpdate
   split
   · exact Keeps.refl w s
-  · split
-    · exact keeps_monitorCompose ..
-    · split
-      · exact Keeps.trans w _ _ _ (keeps_monitorCompose w s _ rd) (keeps_commit ..)
-      · exact keeps_monitorCompose ..
+  · apply keeps_andThen
+    · exact keeps_monitorCompose w s _ rd
+    · intro s'
+      simp only [Res.ok_st]
+      split
+      · exact keeps_commit w s' _
+      · exact Keeps.refl w s'
 
 theorem keeps_unmonitor (w : World) (s : BState) (o : Obj) : Keeps w s (unmonitor s o).st := by
   unfold unmonitor
   split
   · exact Keeps.refl w s
-  · apply keeps_andThen w
+  · simp only
+    split
+    · refine Keeps.trans w _ _ _ ?_ (keeps_resetCp w _)
+      exact (Keeps.of_rfl w rfl)
     · exact (Keeps.of_rfl w rfl)
-    · intro s'
-      split
-      · exact keeps_resetR w s'
-      · exact Keeps.refl w s'
 
 theorem keeps_recordInterruption (w : World) (s : BState) (c : String) : Keeps w s (recordInterruption s c).st := by
   unfold recordInterruption
   split
   · exact Keeps.refl w s
-  · simp only
-    split
-    · exact keeps_composeEvent ..
-    · split
-      · exact Keeps.trans w _ _ _ (keeps_composeEvent ..) (keeps_commit ..)
-      · exact keeps_composeEvent ..
+  · apply keeps_andThen
+    · exact keeps_composeEvent w s _ _ _ _ _ _ _
+    · intro s'
+      simp only [Res.ok_st]
+      split
+      · exact keeps_commit w s' _
+      · exact Keeps.refl w s'
+
+theorem keeps_reprepareOne (w : World) (s : BState) (o : Obj) (n : Name) :
+    Keeps w s (reprepareOne w s o n).st := by
+  unfold reprepareOne
+  split
+  · exact Keeps.refl w s
+  · split
+    · refine Keeps.trans w _ _ _ ?_ (keeps_prepareStream w _ n _)
+      exact (Keeps.of_rfl w rfl)
+    · exact Keeps.refl w s
 
 theorem keeps_reprepareAll (w : World) (s : BState) (o : Obj) : Keeps w s (reprepareAll w s o).st := by
   unfold reprepareAll
   apply keeps_foldl
   · exact Keeps.refl w s
-  · intro r nd h
-    refine keeps_andThen w s r _ h ?_
-    intro s''
-    split
-    · exact Keeps.refl w s''
-    · split
-      · refine Keeps.trans w _ _ _ ?_ (keeps_prepareStream w _ nd.1 _)
-        exact (Keeps.of_rfl w rfl)
-      · exact Keeps.refl w s''
+  · intro r n h
+    exact keeps_andThen w s r _ h (fun s' => keeps_reprepareOne w s' o n)
 
 theorem keeps_configure (w : World) (s : BState) (o : Obj) : Keeps w s (configure w s o).st := by
   unfold configure
@@ -196,8 +281,7 @@ theorem keeps_configure (w : World) (s : BState) (o : Obj) : Keeps w s (configur
 theorem keeps_declareStream (w : World) (s : BState) (n : Name) (objs : List Obj) (c : Bool) :
     Keeps w s (declareStream w s n objs c).st := by
   unfold declareStream
-  simp only
-  apply keeps_andThen w
+  apply keeps_andThen
   · exact keeps_ensureAll w s _ c
   · intro s'
     split
@@ -205,8 +289,10 @@ theorem keeps_declareStream (w : World) (s : BState) (n : Name) (objs : List Obj
     · refine Keeps.trans w _ _ _ ?_ (keeps_prepareStream w _ n _)
       exact (Keeps.of_rfl w rfl)
 
+theorem keeps_kickoff (w : World) (s : BState) (o : Obj) : Keeps w s (kickoff s o).st := (Keeps.of_rfl w rfl)
+
 theorem keeps_packOne (w : World) (n : Name) (d : Desc) (p : PackSt) (a : Asset) (s : BState)
-    (h : Keeps w s p.res.st) : Keeps w s (packOne n d p a).res.st := by
+    (h : Keeps w s p.st) : Keeps w s (packOne n d p a).st := by
   unfold packOne
   split
   · exact h
@@ -230,20 +316,21 @@ theorem keeps_packOne (w : World) (n : Name) (d : Desc) (p : PackSt) (a : Asset)
             · exact h
             · split
               · exact h
-              · exact h
+              · exact Keeps.trans w _ _ _ h (Keeps.of_rfl w rfl)
+
+theorem keeps_packFold (w : World) (n : Name) (d : Desc) (l : List Asset) (p : PackSt) (s : BState)
+    (h : Keeps w s p.st) : Keeps w s (l.foldl (packOne n d) p).st := by
+  induction l generalizing p with
+  | nil => exact h
+  | cons a t ih => exact ih _ (keeps_packOne w n d p a s h)
 
 theorem keeps_packExternalAssets (w : World) (s : BState) (n : Name) (assets : List Asset) :
-    Keeps w s (packExternalAssets s n assets).res.st := by
+    Keeps w s (packExternalAssets s n assets).st := by
   unfold packExternalAssets
   split
   · exact Keeps.refl w s
   · rename_i d hd
-    have : ∀ (l : List Asset) (p : PackSt), Keeps w s p.res.st → Keeps w s (l.foldl (packOne n d) p).res.st := by
-      intro l
-      induction l with
-      | nil => intro p h; exact h
-      | cons a t ih => intro p h; exact ih _ (keeps_packOne w n d p a s h)
-    have h0 := this assets { res := Res.ok s } (Keeps.refl w s)
+    have h0 := keeps_packFold w n d assets { st := s } s (Keeps.refl w s)
     simp only
     split
     · exact h0
@@ -251,13 +338,31 @@ theorem keeps_packExternalAssets (w : World) (s : BState) (n : Name) (assets : L
       · exact h0
       · exact h0
 
+theorem keeps_collectBump (w : World) (p : PackSt) (n : Name) : Keeps w p.st (collectBump p n).st := by
+  unfold collectBump
+  split
+  · exact Keeps.refl w _
+  · split
+    · exact Keeps.refl w _
+    · simp only [Res.ok_st]
+      split
+      · exact (Keeps.of_rfl w rfl)
+      · exact Keeps.refl w _
+
+theorem keeps_collectInto (w : World) (s : BState) (objs : List Obj) (n : Name) (mis : List Mis) :
+    Keeps w s (collectInto w s objs n mis).st := by
+  unfold collectInto
+  simp only
+  refine Keeps.trans w _ _ _ ?_ (keeps_collectBump w _ n)
+  refine Keeps.trans w _ _ _ ?_ (keeps_packExternalAssets w _ n _)
+  exact (Keeps.of_rfl w rfl)
+
 theorem keeps_collectInner (w : World) (s : BState) (objs : List Obj) (nm : Option Name) (mis : List Mis) :
     Keeps w s (collectInner w s objs nm mis).st := by
   unfold collectInner
   split
   · exact Keeps.refl w s
-  · simp only
-    split
+  · split
     · exact (Keeps.of_rfl w rfl)
     · split
       · refine keeps_andThen w _ _ _ ?_ ?_
@@ -265,108 +370,34 @@ theorem keeps_collectInner (w : World) (s : BState) (objs : List Obj) (nm : Opti
           exact (Keeps.of_rfl w rfl)
         · intro s'; exact Keeps.refl w s'
       · exact (Keeps.of_rfl w rfl)
-    · refine keeps_andThen w _ _ _ (Keeps.of_rfl w rfl) ?_
-      intro s'
-      refine keeps_andThen w _ _ _ (keeps_packExternalAssets w s' _ _) ?_
-      intro s''
-      split
-      · exact Keeps.refl w s''
-      · split
-        · exact (Keeps.of_rfl w rfl)
-        · exact Keeps.refl w s''
+    · refine Keeps.trans w _ _ _ ?_ (keeps_collectInto w _ objs _ mis)
+      exact (Keeps.of_rfl w rfl)
+
+theorem keeps_commitChanged (w : World) (before : List (Name × Nat)) (s : BState) :
+    Keeps w s (commitChanged before s) := by
+  unfold commitChanged
+  exact keeps_foldl_state w _ _ _ _ (Keeps.refl w s) (fun a x => keeps_commit w a x)
 
 theorem keeps_collect (w : World) (s : BState) (objs : List Obj) (nm : Option Name) (mis : List Mis) :
     Keeps w s (collect w s objs nm mis).st := by
   unfold collect
-  simp only
   split
-  · exact keeps_foldl_state w _ _ _ _ (keeps_collectInner w s objs nm mis) (fun a x => keeps_commit w a x)
+  · exact Keeps.trans w _ _ _ (keeps_collectInner w s objs nm mis) (keeps_commitChanged w _ _)
   · exact keeps_collectInner w s objs nm mis
 
 theorem keeps_backstopCollect (w : World) (s : BState) : Keeps w s (backstopCollect w s).st := by
   unfold backstopCollect
-  apply keeps_foldl w
+  apply keeps_foldl
   · exact Keeps.refl w s
   · intro r a h
     exact Keeps.trans w _ _ _ h (keeps_collect w r.st [a] none [])
 
-
-theorem keeps_create (w : World) (s : BState) (n : Option Name) : Keeps w s (create s n).st := by
-  unfold create
-  split
-  · exact Keeps.refl w s
-  · cases n with
-    | none => exact (Keeps.of_rfl w rfl)
-    | some n => simp only; split <;> exact (Keeps.of_rfl w rfl)
-
-theorem keeps_read (w : World) (s : BState) (o : Obj) (rd : Reading) : Keeps w s (read w s o rd).st := by
-  unfold read
-  split
-  · exact Keeps.refl w s
-  · apply keeps_andThen w
-    · exact keeps_ensureCached w s o false
-    · intro s'
-      split <;> exact (Keeps.of_rfl w rfl)
-
-theorem keeps_saveDescriptor (w : World) (s : BState) (n : Name) (objs : List Obj) :
-    Keeps w s (saveDescriptor w s n objs).st := by
-  unfold saveDescriptor
-  split
-  · apply keeps_andThen w
-    · exact keeps_ensureAll w _ _ false
-    · intro s'; exact keeps_prepareStream w s' n _
-  · split <;> exact Keeps.refl w _
-
-theorem keeps_saveEvent (w : World) (s : BState) (n : Name) (rd : List (Key × Val)) : Keeps w s (saveEvent s n rd).st := by
-  unfold saveEvent
-  split
-  · exact Keeps.refl w s
-  · exact keeps_composeEvent ..
-
-theorem keeps_save (w : World) (s : BState) : Keeps w s (save w s).st := by
-  unfold save
-  split
-  · exact Keeps.refl w s
-  · split
-    · simp only [Res.ok_st]; split <;> exact (Keeps.of_rfl w rfl)
-    · split
-      · exact (Keeps.of_rfl w rfl)
-      · rename_i n hn
-        refine Keeps.trans w _ { s with bundling := false, bundleName := none } _ (Keeps.of_rfl w rfl) ?_
-        apply keeps_andThen w
-        · exact keeps_saveDescriptor ..
-        · intro s'; exact keeps_saveEvent ..
-
-theorem keeps_drop (w : World) (s : BState) : Keeps w s (drop s).st := by
-  unfold drop; split <;> exact (Keeps.of_rfl w rfl)
-
-theorem keeps_rewindOp (w : World) (s : BState) : Keeps w s (rewindOp s) := by
-  unfold rewindOp
-  simp only
-  have h1 : Keeps w s { s with seq := s.seqCopy } := (Keeps.of_rfl w rfl)
-  have h2 : ∀ (l : List Name) (a : BState), Keeps w s a → Keeps w s (l.foldl
-      (fun (a : BState) (n : Name) =>
-        if ahas a.seq n then a
-        else { a with seq := aset a.seq n firstSeq, seqCopy := aset a.seqCopy n firstSeq }) a) := by
-    intro l
-    induction l with
-    | nil => intro a h; exact h
-    | cons x t ih =>
-      intro a h
-      apply ih
-      simp only
-      split
-      · exact h
-      · exact Keeps.trans w _ _ _ h ((Keeps.of_rfl w rfl))
-  split <;> split <;> first | exact Keeps.trans w _ _ _ (h2 _ _ h1) ((Keeps.of_rfl w rfl)) | exact h2 _ _ h1 | exact Keeps.trans w _ _ _ h1 ((Keeps.of_rfl w rfl)) | exact h1
-
 theorem keeps_suspendMonitors (w : World) (s : BState) : Keeps w s (suspendMonitors s).st := (Keeps.of_rfl w rfl)
 theorem keeps_restoreMonitors (w : World) (s : BState) : Keeps w s (restoreMonitors s).st := (Keeps.of_rfl w rfl)
-theorem keeps_kickoff (w : World) (s : BState) (o : Obj) : Keeps w s (kickoff s o).st := (Keeps.of_rfl w rfl)
 theorem keeps_setCfg (w : World) (s : BState) (o : Obj) (c : Config) : Keeps w s (step w s (.setCfg o c)).st := (Keeps.of_rfl w rfl)
 theorem keeps_advance (w : World) (s : BState) (o : Obj) (k : Nat) : Keeps w s (step w s (.advance o k)).st := (Keeps.of_rfl w rfl)
 theorem keeps_clearCheckpoint (w : World) (s : BState) : Keeps w s (step w s .clearCheckpoint).st := keeps_clearCp w s
-theorem keeps_resetCheckpoint (w : World) (s : BState) : Keeps w s (step w s .resetCheckpoint).st := keeps_resetR w s
+theorem keeps_resetCheckpoint (w : World) (s : BState) : Keeps w s (step w s .resetCheckpoint).st := keeps_resetCp w s
 theorem keeps_rewind (w : World) (s : BState) : Keeps w s (step w s .rewind).st := keeps_rewindOp w s
 theorem keeps_clearMonitors (w : World) (s : BState) : Keeps w s (clearMonitors s).st := keeps_dropMonitors w s
 
